@@ -349,6 +349,26 @@ def verbCtl (e : Env) (f : List (List Nat)) : List Nat :=
       | none => str "undef"
     out ++ str " | tr=" ++ tr
 
+def ctlAction (a : Nat) : Option Sqf.Ctl.Action :=
+  if a == 83 then some .start else if a == 84 then some .stop else if a == 65 then some .abort
+  else if a == 97 then some .assemblyStep else if a == 108 then some .lineStep else if a == 118 then some .leaveScope else none
+
+/-- ctl3 <program> <k> <actions>: execute(start) with the actions issued right before instruction k+1 -/
+def verbCtl3 (e : Env) (f : List (List Nat)) : List Nat :=
+  let text := f.headD []
+  let k := natOfBytes ((f[1]?).getD [])
+  let acts := ((f[2]?).getD []).filterMap ctlAction
+  match assemble e.real text with
+  | none => str "parse-error"
+  | some prog =>
+    let r0 : Sqf.Ctl.Rt := { ctx := some { frames := [{ code := prog }], id := 1 }, m := { parse := assemble e.real } }
+    let o := Sqf.Ctl.startInjected r0 k acts
+    let tr := match Sqf.VM.varsGet (Sqf.VM.nsGet o.1.m.nss 0) (str "tr") with
+      | some v => Sqf.VM.renderV o.1.m v
+      | none => str "undef"
+    str "ctl=" ++ joinWith [44] (o.2.2.map ctlResName) ++ str " exec=" ++ ctlResName o.2.1 ++ str " state=" ++ Sqf.VM.stateName o.1.state ++
+      str " contexts=" ++ natStr (match o.1.ctx with | some _ => 1 | none => 0) ++ str " | tr=" ++ tr
+
 def handle (e : Env) (verb : String) (f : List (List Nat)) : List Nat :=
   if verb == "asm" then verbAsm e f
   else if verb == "lex" then verbLex f
@@ -359,6 +379,7 @@ def handle (e : Env) (verb : String) (f : List (List Nat)) : List Nat :=
   else if verb == "cfg" then verbCfg f
   else if verb == "api" then verbApi e f
   else if verb == "ctl" then verbCtl e f
+  else if verb == "ctl3" then verbCtl3 e f
   else str "bad-verb"
 
 partial def loop (e : Env) (h : IO.FS.Stream) (out : IO.FS.Stream) : IO Unit := do
